@@ -150,10 +150,75 @@ def free_ascii_path(n):
     return path
 
 
+def loop_lemma_path(via):
+    """the AutoDecoder loop itself: stub decoders that accept or raise ConstructError / ValueError by free choice, any remembered
+    decoder: no exception may escape and the result is a dict or None (complements the per-decoder scenarios)"""
+    def path(eng, ctx):
+        import han.autodecoder as AD, han.dlde as dlde, han.common as common, han.hdlc as hdlc
+        from checks.c12 import run_entry
+        from symx.ints import concretize
+        orig, orig_p1 = list(AD.AutoDecoder.payload_decoder_functions), dlde.decode_p1_readout
+        names = [n for n, _ in orig]
+        acc = [SBool(z3.Bool(f"acc{i}")) for i in range(len(names))]
+        kind = [SBool(z3.Bool(f"verr{i}")) for i in range(len(names))]
+
+        def mk(i):
+            def dec(payload):
+                if acc[i]:
+                    return {"decoder": i}
+                raise (ValueError("no") if kind[i] else construct.ConstructError("no"))
+            return dec
+        try:
+            AD.AutoDecoder.payload_decoder_functions = [(names[i], mk(i)) for i in range(len(names))]
+            if "P1" in names:
+                dlde.decode_p1_readout = mk(names.index("P1"))
+            d = AD.AutoDecoder()
+            pv = z3.Int("prev")
+            eng.add(z3.And(pv >= -1, pv <= len(names) - 1))
+            prev = concretize(SInt(pv))
+            d._AutoDecoder__previous_success = None if prev < 0 else prev
+            w = {"sub": "lemma", "prev": prev, "acc": acc, "verr": kind, "via": via}
+            ctx.witness = w
+            ctx.nontrivial()
+            try:
+                r = run_entry(d, via, common, hdlc, dlde)
+            except ENGINE_EXC:
+                raise
+            except Exception as e:
+                ctx.violation(f"{via}: {type(e).__name__} escapes AutoDecoder although every decoder only raises ConstructError/ValueError (prev={prev})", w)
+                return
+            ctx.obs = [r, d.previous_success_decoder]
+            ctx.check(z3.BoolVal(r is None or isinstance(r, dict)), f"{via}: dict or None", w)
+        finally:
+            AD.AutoDecoder.payload_decoder_functions = orig
+            dlde.decode_p1_readout = orig_p1
+    return path
+
+
+def scaling_path():
+    """running time must stay polynomial: P1 lines with n value groups whose last parenthesis is cut off (n = 4 .. 40), one free character"""
+    def path(eng, ctx):
+        n = (4, 8, 16, 24, 32, 40)[eng.pick(6)]
+        line = list(b"1-0:99.97.0(%d)(0-0:96.7.19)" % n)
+        for i in range(n):
+            line += list(b"(%012dW)(%010d*s)" % (101208152415 + i, 240 + i))
+        line = line[:-1]                                 # final ')' missing
+        c = sym_octet("x", "int")
+        eng.add(z3.Or(c.t == 40, c.t == 41, c.t == 42, z3.And(c.t >= 48, c.t <= 57)))
+        line[len(line) // 2] = c
+        run_all_decoders(eng, ctx, SBytes(line + [13, 10]), f"P1 line with {2 * n + 2} value groups, unbalanced")
+    return path
+
+
 def scenarios(tier):
     q = tier == "quick"
     A = inject.assumptions(("decoders", "p1"))
-    out = []
+    out = [Scenario(f"AutoDecoder loop with stub decoders (accept | ConstructError | ValueError free per decoder, any remembered decoder), via {via}", loop_lemma_path(via),
+                    bounds={"accept/raise": "free per decoder", "remembered": "None | 0..6", "entry": via}, domains=("mc",), frontier=5, assumptions=["stub decoders (this scenario only)"], replay_cap=100)
+           for via in ("payload", "dlms", "readout")]
+    out.append(Scenario("running time: P1 lines with 10..82 value groups and a missing final parenthesis, one free character", scaling_path(),
+                        bounds={"value_groups": "10, 18, 34, 50, 66, 82", "free": "one character among ( ) * digit"}, domains=("decoders", "p1"), frontier=2, assumptions=A, replay_cap=20,
+                        engine_opts={"path_time_limit": 200}))
     for label, msg in pool(tier):
         n = len(msg)
         out.append(Scenario(f"{label}: free window of 1 octet at every offset", window_path(label, msg, 1, 0, n),
